@@ -121,6 +121,13 @@ add("C18", "A-product", "DESIGN.md 2/C18",
     "increasing stamps, follows an independent DOP853 backward integration, stays inside, bounded accumulated strain; strain_increment on the gradient alphabet x dt x scales.",
     "Reference: scipy DOP853 rtol 1e-10; budgets on calls/CPU per pathline turn non-termination into a reported violation.")
 
+SUFFIX = (
+    " The complete, current alphabets and bounds of each run are recorded by the run itself in the evidence file "
+    "(coverage.rule, coverage.bound, coverage.alphabets); since the detection experiments they also contain "
+    "unusual-but-legal argument forms (integer-typed and non-C-contiguous arrays, callables that reuse one output "
+    "buffer, intervals run backwards in time, clocks far from zero, sizes well above the defaults) and call "
+    "sequences that expose state carried between calls - see DESIGN.md 7.5b."
+)
 NOT_YET = {}
 
 def main():
@@ -138,7 +145,7 @@ def main():
                 "evidence_file": f"/verif/evidence/{pid}.json",
                 "replay_cmd_template": f"./check {pid} --replay {{path}}",
                 "engine": engine,
-                "level_claimed": {"category": "model_checking", "text": text, "design_ref": ref},
+                "level_claimed": {"category": "model_checking", "text": text + SUFFIX, "design_ref": ref},
                 "level_note": note,
                 "technique": tech,
             })
